@@ -11,7 +11,7 @@ from hypothesis import strategies as st
 from pv.core import Sub, EnumSub, Violation, call, call_or, must_raise, check, short
 
 ASSUMPTIONS = [
-    'containers are list / tuple / dict / Dict / dictattr with string keys (what loop(list, tuple, dict) lifts over), depth <= 4, container sizes 0-3',
+    'containers are list / tuple / dict / Dict / dictattr with string keys (what loop(list, tuple, dict) lifts over), depth <= 4, container sizes 0-3; "same shape" includes the key order of dicts',
     'different-shape companions are flat lists of 4-5 scalars, or dicts with scalar values over foreign keys or over any subset of the key alphabet (matched where the key sets coincide, broadcast elsewhere): the documented '
     '"re-match deeper" rule of _item_by_i/_item_by_key then cannot fire by accident and plain broadcasting is the only reading',
     'same-shape companions mirror the structure to depth k and are scalars below; no companion is named "axis" (a keyword the decorator consumes)',
@@ -119,7 +119,8 @@ def same_shape(a, b):
     if type(a) is not type(b):
         return False
     if isinstance(a, dict):
-        return list(a.keys()) == list(b.keys()) and all(same_shape(a[k], b[k]) for k in a) if False else (sorted(a.keys()) == sorted(b.keys()) and all(same_shape(a[k], b[k]) for k in a))
+        # same keys in the same order (the structure of an ordered mapping includes its key order), same shape below
+        return list(a.keys()) == list(b.keys()) and all(same_shape(a[k], b[k]) for k in a)
     if _is_seq(a):
         return len(a) == len(b) and all(same_shape(i, j) for i, j in zip(a, b))
     return a == b or (a != a and b != b)
